@@ -41,7 +41,7 @@ class DeliberateCrash(Exception):
 
 class C12(Prop):
   id = "C12"
-  quick_examples = 300
+  quick_examples = 600
   thorough_examples = 4000
   rule = ("Generated scenarios under the deterministic scheduler and virtual clock: an ActiveObject "
           "with 0-3 timed sources (periods 0.25-1.0, endless or 4 shots, over three signal names), a second ActiveObject "
